@@ -29,6 +29,9 @@ VERIF = os.path.dirname(os.path.dirname(os.path.abspath(__file__)))
 RUN_WALL_S = 30  # per simulated run safety net (never a verdict)
 
 
+_CTX = {'known': {'findings': []}, 'predicates': {}}  # set before the pool forks
+
+
 class SimHang(BaseException):
     pass
 
@@ -84,6 +87,7 @@ def _run_block(args):
     scn, S, start, stop = args
     faulthandler.enable()
     agg = _new_agg()
+    kept = {}
     for r in range(start, stop):
         sub = subseed(S, scn.PROP, scn.ID, r)
         try:
@@ -112,11 +116,14 @@ def _run_block(args):
         for s in res.get('states') or ():
             agg['states'].add(s)
         if oc == 'violation':
-            if len(agg['violations']) < 8:
-                agg['violations'].append({'case': case, 'vclass': res['vclass'], 'msg': res['msg'], 'routine': res.get('routine', '?'),
-                                          'r': r, 'info': res.get('info')})
-            else:
-                _bump(agg['extra'], 'violations_not_kept')
+            v = {'case': case, 'vclass': res['vclass'], 'msg': res['msg'], 'routine': res.get('routine', '?'), 'r': r, 'info': res.get('info')}
+            f = match_known(_CTX['known'], scn.PROP, v, _CTX['predicates'])
+            key = (v['routine'], v['vclass'], f['id'] if f else None)
+            v['kf'] = f['id'] if f else None
+            kept[key] = kept.get(key, 0) + 1
+            if kept[key] <= 2:  # per (routine, class, listed finding): a listed finding can never crowd out a new violation
+                agg['violations'].append(v)
+            _bump(agg['extra'], 'violating_runs:' + (v['kf'] or 'NEW:%s:%s' % (v['routine'], v['vclass'])))
         elif len(agg['samples']) < 2 and res.get('nontrivial'):
             view = getattr(scn, 'view', None)
             agg['samples'].append(view(case, res) if view else {'scenario': scn.ID, 'seed': sub, 'outcome': oc, 'routine': res.get('routine'),
@@ -228,6 +235,8 @@ def run_check(prop, level, scenarios, tier, S, predicates=None, rule='', assumpt
     # interleave scenarios so a wall cap cuts all of them evenly
     tasks.sort(key=lambda t: (t[2], t[0].ID))
     truncated = False
+    _CTX['known'] = load_known()
+    _CTX['predicates'] = predicates
     ctx = multiprocessing.get_context('fork')
     broken = None
     with cf.ProcessPoolExecutor(max_workers=jobs, mp_context=ctx) as ex:
@@ -262,7 +271,9 @@ def run_check(prop, level, scenarios, tier, S, predicates=None, rule='', assumpt
             else:
                 new_groups.setdefault((sid, v['routine'], v['vclass']), []).append(v)
     for fid, (f, cnt, v) in sorted(kf_seen.items()):
-        lines.append('KNOWN-FINDING: property=%s %s [%s; seen %d time(s) in this run, e.g. seed %s]' % (prop, f['what'], fid, cnt, v['case'].get('seed')))
+        cnt = total['extra'].get('violating_runs:' + fid, cnt)
+        kf_seen[fid][1] = cnt
+        lines.append('KNOWN-FINDING: property=%s %s [%s; %d run(s) in this batch, e.g. seed %s]' % (prop, f['what'], fid, cnt, v['case'].get('seed')))
     viol_records = []
     for (sid, routine, vclass), vs in sorted(new_groups.items()):
         scn = per[sid][1]
